@@ -192,6 +192,25 @@ CHECKS = {
         "thorough: G=3 up to 5 vertices and G=4 up to 4 vertices."),
   technique="TLC exhaustive equivalence proof on the lattice + table replay on compiled code",
  ),
+ "C11": dict(
+  level="model_checking",
+  design_ref="DESIGN.md section 5, C11",
+  text=("MetaSpec is the table of documented type classes, payloads, "
+        "accepted representations, setting routes and rejected inputs with "
+        "the value that must be stored; TLC enumerates it (and checks it is "
+        "total) and MC_MetaPipes enumerates pipelines of storage steps that "
+        "must be the identity. Every case is instantiated for every "
+        "concrete key of its type class read from dclab.definitions at run "
+        "time (about 110 keys incl. online_filter pattern keys) and compared "
+        "by value, documented type and idempotence; every pipeline is run "
+        "on a file holding all metadata keys plus user entries and compared "
+        "after every step (write/read, export, compress, repack, text)."),
+  note=("a converter missing from the spec's type classes aborts the check "
+        "(machinery failure) instead of being silently skipped; keys "
+        "auto-completed by the writer are excluded from storage pipelines; "
+        "user entries are not claimed for the text round trip."),
+  technique="TLC-enumerated decision table replayed on every concrete key + storage pipelines",
+ ),
 }
 
 NOT_YET = "check not built yet (work in progress; see DESIGN.md section 5)"
